@@ -104,6 +104,7 @@ public:
         if (first) {
             //cancel the unfinished tasks now, the pool can be destroyed once _stopped is set
             while (!q.empty()) q.pop();
+            COCLS_VERIF_POINT("p_lock");
             std::lock_guard _(_mx);
             _stopped = true;
             _cond.notify_all();
@@ -334,6 +335,7 @@ public:
         public:
             current_awaiter():co_awaiter(*_current) {}
             static bool await_ready() {
+                COCLS_VERIF_POINT("p_peek");
                 thread_pool *c = _current;
                 return c == nullptr || c->_exit;
             }
@@ -359,6 +361,7 @@ public:
     };
 
     bool is_stopped() const {
+        COCLS_VERIF_POINT("p_lock");
         std::lock_guard _(_mx);
         return _exit;
     }
@@ -366,6 +369,7 @@ public:
 
     ///returns true if there is still enqueued task
     bool any_enqueued() {
+        COCLS_VERIF_POINT("p_lock");
         std::unique_lock lk(_mx);
         return _exit || !_queue.empty();
     }
